@@ -35,7 +35,10 @@ static inline void C04_printf_hex(vstr* ret, const char* prefix, unsigned width,
 
 /* return string_printf(PREFIX "%" PRIX64, arg): the canonical uppercase hexadecimal numeral of the 64-bit argument read as
  * uint64_t (an int64_t argument is passed through the ellipsis unchanged and re-read as unsigned long: same bits), no leading
- * zeros, at least one digit. */
+ * zeros, at least one digit.  Ghosts: g_dstart = index of the first digit, g_ndigits = number of digits, g_mag = the value. */
+extern size_t g_dstart;
+extern unsigned g_ndigits;
+extern uint64_t g_mag;
 static inline void C04_printf_hex64(vstr* ret, const char* prefix, uint64_t v)
 {
   ret->size = 0;
@@ -44,6 +47,7 @@ static inline void C04_printf_hex64(vstr* ret, const char* prefix, uint64_t v)
   for (unsigned k = 1; k < 16; k++) {
     if ((v >> (4 * k)) != 0) nd = k + 1;
   }
+  g_dstart = ret->size; g_ndigits = nd; g_mag = v;
   for (unsigned k = 0; k < 16; k++) {
     if (k < nd) vstr_push_back(ret, C04_HEXCH((unsigned)((v >> (4 * (nd - 1 - k))) & 15), 1));
   }
@@ -52,32 +56,31 @@ static inline void C04_printf_hex64(vstr* ret, const char* prefix, uint64_t v)
 /* return std::to_string(int64_t): [string.conversions] = sprintf("%ld"): the canonical decimal numeral: '-' iff v < 0, then the
  * digits d_0 .. d_{n-1} (n <= 19) with d_0 != 0 unless n == 1 and sum d_k 10^(n-1-k) == |v|.  Modelled as "any digit string whose
  * value (Horner fold, exact in 64 bits for n <= 19) is |v|": by existence and uniqueness of the decimal representation that is
- * exactly the canonical numeral.  The digits are left to the solver, so no division is needed. */
+ * exactly the canonical numeral.  The digits are left to the solver, so no division is needed.
+ * Ghosts: g_dstart / g_ndigits as above, g_pref[k] = value of the first k digits (g_pref[n] == |v|).  `g_pref[k] <= |v|` is
+ * implied by the final equation (a prefix of a numeral denotes at most the whole) and is stated to help the solver. */
 unsigned nondet_C04_unsigned(void);
-extern unsigned g_ndigits;     /* ghost: number of digits of the last numeral (reporting only) */
+extern uint64_t g_pref[20];
 static inline void C04_to_string(vstr* ret, int64_t v)
 {
   uint64_t mag = v < 0 ? (uint64_t)0 - (uint64_t)v : (uint64_t)v;
   unsigned n = nondet_C04_unsigned();
   __CPROVER_assume(n >= 1 && n <= 19);
-#ifdef C04_NDIG
-  __CPROVER_assume(n == C04_NDIG);
-#endif
-  g_ndigits = n;
   ret->size = 0;
   if (v < 0) vstr_push_back(ret, '-');
-  uint64_t m = 0;
+  g_dstart = ret->size; g_ndigits = n; g_mag = mag;
+  g_pref[0] = 0;
   for (unsigned k = 0; k < 19; k++) {
     if (k < n) {
       unsigned d = nondet_C04_unsigned();
       __CPROVER_assume(d <= 9);
       __CPROVER_assume(d != 0 || k != 0 || n == 1);
-      m = m * 10 + d;
-      __CPROVER_assume(m <= mag);      /* implied by the final equation (a prefix of a numeral denotes at most the whole); stated to help the solver */
+      g_pref[k + 1] = g_pref[k] * 10 + d;
+      __CPROVER_assume(g_pref[k + 1] <= mag);
       vstr_push_back(ret, (char)('0' + d));
     }
   }
-  __CPROVER_assume(m == mag);
+  __CPROVER_assume(g_pref[n] == mag);
 }
 
 /* string ret = string_printf("%g", x): "some string of the %g output grammar" -- the text is chosen by the harness
